@@ -7,7 +7,7 @@ CFG = {
     "rule": "pairs of segments: 50% on 2..5-grids (all coincidence classes incl. zero-length), 10% collinear on a common lattice line, "
             "20% adversarial f64 (T-junction / touching end point nudged by 1-3 ulps), 10% nearly parallel at magnitudes up to 2^43, 10% wild floats; "
             "each case evaluated in both operand orders and against Line::intersects; distinct by input text; "
-            "cases with disjoint bounding boxes are tagged triv and not counted",
+            "cases with disjoint bounding boxes are tagged triv and not counted One case in 12 (round 9): a point exactly on the line of a mixed-sign segment within two ulps of an end, as a zero-length first or second operand or as the end of a collinear segment.",
     "trusted_base": [
         "modelled, not verified: the proper intersection point is the exact Cramer solution; the implementation's conditioned f64 solver is compared "
         "within 64*2^-53*M*cond (cond = |dp||dq|/|w|), only bounding-box containment when |w| <= 2^-40 |dp||dq| (tag illcond)",
